@@ -3,6 +3,7 @@ C17 — helper lemmas: int64 arithmetic without wrap-around on the realistic fee
 domain, the decision table of one negotiation step, sorting facts.
 -/
 import LndModel.C17.Model
+import LndModel.C17.Spec
 
 namespace LndModel.C17
 
@@ -449,34 +450,19 @@ theorem createCloseTx_swap (o : TxOpts) (ld rd our their : Int) (ls rs : Script)
   rw [sortOuts_comm_small _ _ h1 h2]
 
 
-/-- what the property statement says the local party is owed: its balance (msat truncated to
-    sat), plus the dangling commit fee and both anchors if it opened the channel, minus the
-    closing fee if it is the paying party. -/
-def finalLocal (v : View) (r : CloseReq) : Int :=
-  toSat v.localMsat
-    + (if v.isInit then v.commitFee + (if v.anchors then 2 * anchorSize else 0) else 0)
-    - (if payerOf v.isInit r.payer = .local then r.fee else 0)
-
-def finalRemote (v : View) (r : CloseReq) : Int :=
-  toSat v.remoteMsat
-    + (if v.isInit then 0 else v.commitFee + (if v.anchors then 2 * anchorSize else 0))
-    - (if payerOf v.isInit r.payer = .remote then r.fee else 0)
-
-/-- the paying party's balance before the fee is charged. -/
-def payerCredit (v : View) (r : CloseReq) : Int :=
-  match payerOf v.isInit r.payer with
-  | .local => finalLocal v r + r.fee
-  | .remote => finalRemote v r + r.fee
-
+/-- the model's `CoopCloseBalance` computes exactly the owed amounts of Spec.lean (this is where
+    the model's default-payer rule, anchor size and msat truncation meet the specification). -/
 theorem coopCloseBalance_eq (v : View) (r : CloseReq) :
     coopCloseBalance v.anchors v.isInit r.fee (toSat v.localMsat) (toSat v.remoteMsat) v.commitFee r.payer =
       if finalLocal v r < 0 ∨ finalRemote v r < 0 then none else some (finalLocal v r, finalRemote v r) := by
-  unfold coopCloseBalance finalLocal finalRemote initiatorDelta
-  cases v.isInit <;> cases payerOf _ r.payer <;>
-    simp only [if_true, if_false, Bool.false_eq_true, reduceCtorEq] <;>
-    (congr 1 <;> first | rfl | (simp only [Int.add_zero, Int.sub_zero]) | skip) <;>
-    simp only [Int.add_zero, Int.sub_zero]
-
+  obtain ⟨lm, rm, cf, isInit, anchors, tap, ld, rd⟩ := v
+  obtain ⟨fee, ls, rs, lop, rop, payer, cs, cl⟩ := r
+  simp only [coopCloseBalance, finalLocal, finalRemote, initiatorDelta, openerCredit, localPays,
+    payerOf, anchorSize, toSat]
+  cases isInit <;> cases anchors <;> rcases payer with _ | p <;> (try cases p) <;>
+    simp only [Option.getD_none, Option.getD_some, if_true, if_false, Bool.false_eq_true,
+      reduceCtorEq] <;>
+    (split <;> split <;> first | rfl | (exfalso; omega) | (simp only [Option.some.injEq, Prod.mk.injEq]; constructor <;> omega))
 
 /-- a party's output exists iff its balance reaches its own dust limit, and carries that balance. -/
 theorem mem_partyOut (o : TxOpts) (dust bal : Int) (s : Script) (op : Bool) (x : TxOut) :
